@@ -627,6 +627,20 @@ func (g *grammar) leanModule() string {
 		p("  r%s := %d%s\n", n, idx, sep)
 	}
 	p("  , rPegText := %d }\n\n", len(g.rules))
+	p("/- the ids as rewrite rules -/\n")
+	for i, n := range rulesUsedByWalker {
+		idx, ok := g.index[n]
+		if !ok {
+			idx = 1000000 + i
+		}
+		p("@[simp] theorem ids_r%s : ids.r%s = %d := rfl\n", n, n, idx)
+	}
+	p("@[simp] theorem ids_rPegText : ids.rPegText = %d := rfl\n\n", len(g.rules))
+	p("/- every rule id by name -/\nnamespace R\n")
+	for i, r := range g.rules {
+		p("abbrev %s : Nat := %d\n", r.name, i)
+	}
+	p("abbrev PegText : Nat := %d\nend R\n\n", len(g.rules))
 	p("end Generated.C03\n")
 	return w.String()
 }
